@@ -1138,10 +1138,14 @@ func (in *Interp) appendVals(s Slice, add []Value, et types.Type) Slice {
 	}
 	n := len(s.v) + len(add)
 	if n <= cap(s.v) {
-		r := s.v[:n]
+		// the source may overlap the spare capacity it is appended into (l = append(l[:i+1],
+		// l[i:]...)): Go's append has memmove semantics, so take the values first
+		tmp := make([]Value, len(add))
 		for i, a := range add {
-			r[len(s.v)+i] = copyVal(a)
+			tmp[i] = copyVal(a)
 		}
+		r := s.v[:n]
+		copy(r[len(s.v):], tmp)
 		return Slice{v: r}
 	}
 	nc := in.w.growCap(len(s.v), cap(s.v), len(add), in.sizes.Sizeof(et), hasPointers(et))
